@@ -351,3 +351,9 @@ impl ShardCtx {
         std::fs::write(dir.join(format!("shard-{}.fp", self.shard)), bytes).unwrap();
     }
 }
+
+/// Monotone index mapping for proptest-generated u16 selectors
+pub fn pick<T: Clone>(table: &[T], sel: u16) -> T {
+    let i = (sel as usize * table.len()) >> 16;
+    table[i.min(table.len() - 1)].clone()
+}
